@@ -158,6 +158,9 @@ def check_property(prop, tier, repo, record=False, verbose=False):
         standins.append({"function": fn, "reason": "always run: " + why, "tool": "native scenario harness (replay/realisers.py)", "result": status, "replay": os.path.relpath(path, VERIF) if path else None})
         if status == "confirmed":
             vio_lines.append("VIOLATION property=%s replay=%s" % (prop, os.path.relpath(path, VERIF)))
+        elif status == "harness-error":
+            # an always-run scenario harness that crashes would otherwise pass for "nothing found"
+            problems.append("the always-run stand-in of %s failed to run (see %s)" % (fn, os.path.relpath(path, VERIF)))
     for o, k in known_hit:
         lines.append("KNOWN-FINDING: property=%s %s" % (prop, k["what"]))
     # --- evidence ------------------------------------------------------------------------
